@@ -189,6 +189,17 @@ theorem inv_attachRaw {s : Forest} (h : Inv s) {n p : Nat} (hroot : s.parent n =
     have h2 : x ≠ p := by omega
     simpa [h1, h2] using h.supp x hx
 
+/-- a node argument that exists -/
+def ArgOk (k : Nat) : Option Arg → Prop
+  | some (.node p) => p < k
+  | _ => True
+
+instance (k : Nat) (v : Option Arg) : Decidable (ArgOk k v) := by
+  match v with
+  | some (.node p) => exact inferInstanceAs (Decidable (p < k))
+  | some .nonNode => exact isTrue trivial
+  | none => exact isTrue trivial
+
 /-! ## Hoare logic for `M` -/
 
 /-- `{P} a {Q | E}`: from a `P`-state, `a` ends in a `Q`-state if it returns, and in an `E e`-state
